@@ -615,8 +615,8 @@ theorem advance_eq (b : RowBudget) (n a : Nat) :
     b.advance n a = ⟨b.offset.map (fun o => o - (n - a)), b.limit.map (· - a)⟩ := by
   unfold RowBudget.advance
   by_cases h : a = 0
-  · subst h; cases b.limit <;> simp
-  · simp [h]
+  · subst h; cases b.limit <;> simp [Generated.C15.BUDGET_ADVANCE_SKIP_WHEN]
+  · simp [h, Generated.C15.BUDGET_ADVANCE_SKIP_WHEN]
 
 /-- **Budget distribution**: applying the budget to one row group with `n1` selected rows and the
 advanced budget to the next with `n2` selected rows emits, in total, what applying the original
@@ -628,8 +628,8 @@ theorem rowBudget_distributes (b : RowBudget) (n1 n2 : Nat) :
   simp only [advance_eq]
   obtain ⟨o, l⟩ := b
   cases o <;> cases l <;>
-    simp only [RowBudget.rowsAfter, Option.getD_none, Option.getD_some, Option.map_none, Option.map_some,
-      RowBudget.mk.injEq, Option.some.injEq, and_true, true_and, Nat.sub_zero] <;>
+    simp only [RowBudget.rowsAfter, Generated.C15.BUDGET_DEFAULT_OFFSET, Option.getD_none, Option.getD_some,
+      Option.map_none, Option.map_some, RowBudget.mk.injEq, Option.some.injEq, and_true, true_and, Nat.sub_zero] <;>
     omega
 
 /-- the rows each row group of a scan emits, threading the budget (`apply_to_plan` /
